@@ -132,7 +132,9 @@ def main():
                 simu._Set_solutions(pt, np.zeros(mesh.Nn * len(simu.Get_unknowns())))
                 u = np.asarray(simu.Solve()).copy()
             except Exception as ex:  # noqa: BLE001
-                res.notes.append(f"backend {backend} not usable: {type(ex).__name__}")
+                # all five are scipy solvers (installed): a backend that raises does not solve the stated system
+                res.fail(f"backend {backend} raises sim={kind}", f"simu.solver = {backend}: Solve raised {type(ex).__name__}: {str(ex)[:120]} "
+                         f"({len(set(simu.Bc_dofs_Dirichlet(pt)))} of {mesh.Nn * len(simu.Get_unknowns())} dofs are prescribed)", ident)
                 continue
             sols[backend] = u
         if "scipy" not in sols:
